@@ -1,7 +1,7 @@
 """C06 - decoding consumes exactly one frame and ignores what follows it."""
 from hypothesis import strategies as st
 
-from pbt import canon, strategies as S
+from pbt import canon, decode_domain as D, strategies as S
 from pbt.lib import UnmarshalingException, call, dump_frame, frame, frame_kind, \
     make_frame
 from pbt import fuzzrun
@@ -23,7 +23,9 @@ RULE = ('(a) concat: lists of 1..12 valid frames of all five kinds with channels
         'after every step: frames decoded so far == the first frames sent, none decoded '
         'before its last byte was delivered, everything decoded at the end. (c) envelope: '
         'valid frames with 1..3 byte substitutions / truncation / appended bytes, and '
-        'random buffers behind a plausible header; whenever decoding succeeds: object kind '
+        'random buffers behind a plausible header, headers with size fields at the edges '
+        'of the 32-bit range in front of 0xCE-rich payloads, and the C08/C09 fault model '
+        '(every located field of the frame catalogue rewritten); whenever decoding succeeds: object kind '
         '<-> type octet, channel == bytes 1..2, consumed == size + 8 <= len, last consumed '
         'byte 0xCE; ProtocolHeader only for input starting "AMQP", 8 consumed. '
         'Non-trivial: >= 2 frames of >= 2 kinds, or trailing bytes that start like a '
@@ -224,6 +226,8 @@ def mutate(data, muts):
 def check_envelope(case):
     if 'raw' in case:
         data = case['raw']
+    elif 'seed' in case or ('frame' in case and 'faults' in case):
+        data = D.build(case)        # fault model shared with C08/C09
     else:
         data = mutate(encode_frames([case['frame']])[0], case['muts'])
     try:
@@ -277,13 +281,28 @@ def envelope_cases(tier):
         size = min(size, len(payload))
         return bytes([t]) + ch.to_bytes(2, 'big') + size.to_bytes(4, 'big') + \
             payload[:size] + end + payload[size:]
+
+    def wild(t, ch, size, payload):
+        return bytes([t]) + ch.to_bytes(2, 'big') + size.to_bytes(4, 'big') + payload
+    # size fields at the edges of the 32-bit range (misread as signed / wrapped), behind
+    # payloads rich in frame-end octets
+    edge_sizes = st.one_of(
+        st.integers(0, 64).map(lambda k: 2**32 - 1 - k),
+        st.integers(-32, 32).map(lambda k: 2**31 + k),
+        st.integers(0, 64))
+    ce_payload = st.one_of(
+        st.integers(0, 48).map(lambda n: b'\xce' * n),
+        st.lists(st.sampled_from([b'\xce', b'\xce', b'\x00', b'hello', b'\x08']),
+                 max_size=24).map(b''.join))
+    wild_cases = st.builds(wild, st.sampled_from([1, 2, 3, 3, 8]), S.CHANNELS,
+                           edge_sizes, ce_payload).map(lambda b: {'raw': b})
     plausible = st.builds(
         raw, st.sampled_from([1, 2, 3, 8, 0, 4, 255]), S.CHANNELS,
         st.integers(0, 40), st.binary(max_size=40),
         st.sampled_from([b'\xce', b'\xce', b'\x00', b''])).map(
             lambda b: {'raw': b})
     amqp = st.builds(lambda t: {'raw': b'AMQP' + t}, st.binary(max_size=8))
-    return st.one_of(mutated, mutated, plausible, amqp)
+    return st.one_of(mutated, mutated, plausible, amqp, wild_cases)
 
 
 def envelope_nontrivial(case):
@@ -305,6 +324,13 @@ COMPONENTS = [
               nontrivial=envelope_nontrivial,
               budget={'quick': 16000, 'thorough': 320000},
               describe='mutated frames and synthetic buffers; invariant on success'),
+    Component('fields-all', check_envelope, cases=D.field_sweep_cases,
+              distinct_by_construction=True, exhaustive=True,
+              describe='every located field of the frame catalogue x every rewrite mode '
+                       '(incl. values that are small negatives when read signed)'),
+    Component('seed-faults', check_envelope, strategy=D.seed_fault_cases,
+              budget={'quick': 8000, 'thorough': 240000},
+              describe='catalogue / fixture frames with 1-2 faults; envelope invariant'),
     Component('fuzz', check_envelope, bulk=fuzzrun.make_bulk('C06', 'C06', {'quick': 60000,
                                                                'thorough': 3000000}),
               distinct_by_construction=True,
